@@ -130,6 +130,12 @@ func execMore(op string, a []string) string {
 		if err != nil {
 			return "err"
 		}
+		if a[2] == "rfc" {
+			// The default (RFC6979-based) nonce derivation is an implementation choice, not fixed by BIP340:
+			// the property only demands that the signature verifies, so the bytes are NOT part of the
+			// observation (membership: Go's verdict here + Lean's Spec verdict on generator-signed triples).
+			return "rfc " + b01(sig.Verify(msg, k.PubKey()))
+		}
 		return fmt.Sprintf("%x %s", sig.Serialize(), b01(sig.Verify(msg, k.PubKey())))
 	case op == "ecdh" && len(a) == 2:
 		pk, err := btcec.ParsePubKey(unhex(a[1]))
